@@ -88,14 +88,15 @@ type Node struct {
 }
 
 type WF struct {
-	Name      string
-	Nodes     []Node
-	MaxTasks  int
-	Bufsize   int // 0: SCIPIPE_BUFSIZE unset (default 128)
-	Sources   map[string]string
-	Dirs      []string // directories that exist before the run (absolute)
-	RunTo     []string
-	RunToMode int // 0 names, 1 regex, 2 procs
+	Name        string
+	Nodes       []Node
+	MaxTasks    int
+	Bufsize     int // 0: SCIPIPE_BUFSIZE unset (default 128)
+	Sources     map[string]string
+	Dirs        []string // directories that exist before the run (absolute)
+	RunTo       []string
+	RunToMode   int  // 0 names, 1 regex, 2 procs
+	FullLogging bool // do not lower the log level: NewWorkflow sets up audit logging to stdout + file
 }
 
 func (w *WF) NodeByName(n string) *Node {
